@@ -72,8 +72,72 @@ def foldV (init : Bool) : List (Nat × Bool) → Val → Option Val
   | [], v => some v
   | (x, b) :: ds, v => if b = init then foldV init ds v else (setBit v x b).bind (foldV init ds)
 
+/-! Compiled fast path of `foldV` (the `List.set` of the definition is linear in the index, which makes a walk with
+    many writes quadratic at 65 533 variables): the same loop on an array, proved equal and installed with `csimp`.
+    The definition above is what all theorems are about. -/
+def foldVA (init : Bool) : List (Nat × Bool) → Array Bool → Option (Array Bool)
+  | [], a => some a
+  | (x, b) :: ds, a =>
+    if b = init then foldVA init ds a
+    else if x < a.size then foldVA init ds (a.setIfInBounds x b) else none
+
+def foldVFast (init : Bool) (ds : List (Nat × Bool)) (v : Val) : Option Val :=
+  (foldVA init ds v.toArray).map Array.toList
+
+theorem foldVA_spec (init : Bool) : ∀ (ds : List (Nat × Bool)) (a : Array Bool),
+    (foldVA init ds a).map Array.toList = foldV init ds a.toList := by
+  intro ds
+  induction ds with
+  | nil => intro a; simp [foldVA, foldV]
+  | cons d ds ih =>
+    intro a
+    obtain ⟨x, b⟩ := d
+    by_cases hb : b = init
+    · simp [foldVA, foldV, hb, ih]
+    · by_cases hx : x < a.size
+      · simp [foldVA, foldV, hb, hx, setBit, ih]
+      · simp [foldVA, foldV, hb, hx, setBit]
+
+@[csimp] theorem foldV_eq_fast : @foldV = @foldVFast := by
+  funext init ds v
+  unfold foldVFast
+  rw [foldVA_spec]
+
 /-- The clause written by a walk that records every decision. -/
 def foldC (ds : List (Nat × Bool)) : Clause := ds.foldl (fun c d => setC c d.1 d.2) []
+
+/-! Compiled fast path of `foldC`: `set_value` on an array. -/
+def setCA (a : Array (Option Bool)) (x : Nat) (b : Bool) : Array (Option Bool) :=
+  if x < a.size then a.setIfInBounds x (some b)
+  else (a ++ Array.replicate (x - a.size) none).push (some b)
+
+theorem setCA_spec (a : Array (Option Bool)) (x : Nat) (b : Bool) :
+    (setCA a x b).toList = setC a.toList x b := by
+  unfold setCA setC
+  by_cases hx : x < a.size
+  · have : x + 1 - a.size = 0 := by omega
+    simp [hx, this]
+  · have h1 : x + 1 - a.toList.length = (x - a.size) + 1 := by simp; omega
+    simp only [hx, if_false, h1, Array.toList_push, Array.toList_append, Array.toList_replicate]
+    rw [List.replicate_succ', ← List.append_assoc]
+    have hlen : (a.toList ++ List.replicate (x - a.size) none).length = x := by simp; omega
+    rw [List.set_append_right _ _ (by omega)]
+    simp [hlen]
+
+def foldCFast (ds : List (Nat × Bool)) : Clause :=
+  (ds.foldl (fun a d => setCA a d.1 d.2) #[]).toList
+
+theorem foldCA_spec : ∀ (ds : List (Nat × Bool)) (a : Array (Option Bool)),
+    (ds.foldl (fun a d => setCA a d.1 d.2) a).toList = ds.foldl (fun c d => setC c d.1 d.2) a.toList := by
+  intro ds
+  induction ds with
+  | nil => intro a; rfl
+  | cons d ds ih => intro a; simp only [List.foldl_cons]; rw [ih, setCA_spec]
+
+@[csimp] theorem foldC_eq_fast : @foldC = @foldCFast := by
+  funext ds
+  unfold foldCFast foldC
+  rw [foldCA_spec]
 
 def ofOpt {α : Type} : Option α → Sel α
   | Option.none => Sel.panic
@@ -231,6 +295,87 @@ def witStep (A : Arr) (st : Nat × Val) (i : Nat) : Option (Nat × Val) :=
 def satWitness (A : Arr) : Sel Val :=
   if isFalse A then Sel.none else
   ofOpt (((List.range' 2 (A.size - 2)).foldlM (witStep A) (1, List.replicate (numVars A) false)).map (·.2))
+
+/-! Compiled fast path of `sat_witness`: the same parent search with the valuation in an array. -/
+def setBitA (v : Array Bool) (x : Nat) (b : Bool) : Option (Array Bool) :=
+  if x < v.size then some (v.setIfInBounds x b) else none
+
+theorem setBitA_spec (v : Array Bool) (x : Nat) (b : Bool) :
+    (setBitA v x b).map Array.toList = setBit v.toList x b := by
+  unfold setBitA setBit
+  by_cases hx : x < v.size <;> simp [hx]
+
+/-- the loop of `sat_witness` on an array valuation -/
+def witLoopA (A : Arr) : List Nat → Nat → Array Bool → Option (Array Bool)
+  | [], _, v => some v
+  | i :: rest, find, v =>
+    match A[i]? with
+    | none => none
+    | some nd =>
+      match (if nd.low = find then (setBitA v nd.var false).map fun v1 => (i, v1) else some (find, v)) with
+      | none => none
+      | some (f1, v1) =>
+        if nd.high = f1 then
+          match setBitA v1 nd.var true with
+          | none => none
+          | some v2 => witLoopA A rest i v2
+        else witLoopA A rest f1 v1
+
+theorem witLoopA_spec (A : Arr) : ∀ (l : List Nat) (find : Nat) (v : Array Bool),
+    (witLoopA A l find v).map Array.toList = (l.foldlM (witStep A) (find, v.toList)).map (·.2) := by
+  intro l
+  induction l with
+  | nil => intro find v; simp [witLoopA]
+  | cons i rest ih =>
+    intro find v
+    rw [List.foldlM_cons]
+    unfold witLoopA witStep
+    cases hnd : A[i]? with
+    | none => simp
+    | some nd =>
+      simp only [Option.bind_some]
+      by_cases hl : nd.low = find
+      · have e1 := setBitA_spec v nd.var false
+        cases h1 : setBitA v nd.var false with
+        | none =>
+          rw [h1] at e1
+          simp only [Option.map_none] at e1
+          simp [hl, ← e1]
+        | some v1 =>
+          rw [h1] at e1
+          simp only [Option.map_some] at e1
+          simp only [hl, if_true, Option.map_some, ← e1, Option.bind_some]
+          by_cases hh : nd.high = i
+          · have e2 := setBitA_spec v1 nd.var true
+            cases h2 : setBitA v1 nd.var true with
+            | none => rw [h2] at e2; simp only [Option.map_none] at e2; simp [hh, ← e2]
+            | some v2 =>
+              rw [h2] at e2; simp only [Option.map_some] at e2
+              simp only [hh, if_true, ← e2, Option.map_some]
+              exact ih i v2
+          · simp only [hh, if_false]
+            exact ih i v1
+      · simp only [hl, if_false, Option.bind_some]
+        by_cases hh : nd.high = find
+        · have e2 := setBitA_spec v nd.var true
+          cases h2 : setBitA v nd.var true with
+          | none => rw [h2] at e2; simp only [Option.map_none] at e2; simp [hh, ← e2]
+          | some v2 =>
+            rw [h2] at e2; simp only [Option.map_some] at e2
+            simp only [hh, if_true, ← e2, Option.map_some]
+            exact ih i v2
+        · simp only [hh, if_false]
+          exact ih find v
+
+def satWitnessFast (A : Arr) : Sel Val :=
+  if isFalse A then Sel.none else
+  ofOpt ((witLoopA A (List.range' 2 (A.size - 2)) 1 (Array.replicate (numVars A) false)).map Array.toList)
+
+@[csimp] theorem satWitness_eq_fast : @satWitness = @satWitnessFast := by
+  funext A
+  unfold satWitness satWitnessFast
+  rw [witLoopA_spec]
+  simp
 
 /-! ### `is_valuation`, `is_clause` (`_impl_util.rs:461-517`) -/
 
